@@ -336,6 +336,7 @@ class Parser:
             arg_extr = arg = []
             delim = False
             tok = buf.skip_space()
+            pos_last = pos      # position of macro or of previous argument
             if tok:
                 pos = tok.pos
             if code == '*':
@@ -350,8 +351,9 @@ class Parser:
                     if n < len(mac.defaults):
                         # NB: do not use positions from macro definition
                         arg = [copy.copy(t) for t in mac.defaults[n]]
+                        # NB: the next token does not belong to the macro
                         for t in arg:
-                            t.pos = pos
+                            t.pos = pos_last
                             t.pos_fix = True
             elif code == 'A':
                 if tok and tok.txt == '}':
